@@ -164,7 +164,7 @@ type walkState struct {
 	visits   map[*ssa.BasicBlock]int
 	defers   []*ssa.Defer
 	items    []Item
-	decided  map[ssa.Value]bool // branch decisions taken on this path (frame-local values)
+	decided  map[ssa.Value]bool    // branch decisions taken on this path (frame-local values)
 	cells    map[*ssa.Alloc]AbsVal // abstract contents of local variable cells (spilled results)
 	facts    map[string]factVal    // what earlier branches/stores established about memory locations
 	panicing bool
